@@ -36,6 +36,11 @@ import time
 import export_tables
 from common import NCPU, Outcome, proof_coverage, proof_stage, run_driver, seed, use_repo
 
+try:
+    import eng_escapes  # the escape clause of C12 (written separately)
+except ImportError:
+    eng_escapes = None
+
 THEOREMS = [
     "Pest.C12.ascii_tables_spec",
     "Pest.C12.ascii_rules_built_from_map",
@@ -63,6 +68,7 @@ THEOREMS = [
     "Pest.CharSet.separated_mergeRanges",
     "Pest.CharSet.sortedLex_sortIvs",
 ]
+THEOREMS_ALL = THEOREMS + list(getattr(eng_escapes, "THEOREMS_ESC", []) or [])
 EXTRA_TARGETS = ["PestModel.Drv.CharSet"]
 
 N = 0x110000
@@ -1143,6 +1149,14 @@ def replay(out: Outcome, payload: dict) -> None:
     use_repo()
     out.coverage = {"explanation": "replay of one (grammar, mode, input) case", "evaluations": 1, "distinct_nontrivial": 2,
                     "samples": [{k: payload.get(k) for k in ("grammar", "mode", "input", "expected")}]}
+    if payload.get("kind_of_case") == "escape":
+        if eng_escapes is None:
+            out.infra_error = "harness/eng_escapes.py not present"
+            return
+        still = eng_escapes.replay_escape(payload["replay"])
+        if still:
+            out.violation({**payload, "still_failing": still})
+        return
     if payload.get("kind_of_case") == "char-class":
         import regex
         from pest.grammar.expressions.choice import _optimize_char_class
@@ -1184,7 +1198,7 @@ def run(out: Outcome) -> None:  # noqa: PLR0912, PLR0915
     t0 = time.time()
     exp = export_tables.export_all()
     tables = exp["tables"]
-    info = proof_stage(out, "C12", THEOREMS, extra_targets=EXTRA_TARGETS)
+    info = proof_stage(out, "C12", THEOREMS_ALL, extra_targets=EXTRA_TARGETS)
     if not info.get("driver_ok"):
         out.infra_error = "Lean driver does not build: " + "; ".join(info.get("broken", []))[:400]
         return
@@ -1289,25 +1303,27 @@ def run(out: Outcome) -> None:  # noqa: PLR0912, PLR0915
             corr.append({"request": ln, "impl": e, "model": a, "kind": "table"})
     requests += len(tl) + class_requests
 
-    # ---- escapes (another engine)
-    esc_info = {"ran": False}
-    try:
-        import eng_escapes  # type: ignore
+    # ---- escapes (harness/eng_escapes.py, written separately; merged into this verdict)
+    esc_info: dict = {"ran": False}
+    esc_concrete: list = []
+    if eng_escapes is None:
+        esc_info["why"] = "harness/eng_escapes.py not present"
+    else:
+        try:
+            er = eng_escapes.run_escape_part(out)
+            esc_concrete = list(er.get("concrete") or [])
+            for x in er.get("corr") or []:
+                corr.append({**x, "kind": "escapes"})
+            evals += int(er.get("evaluations") or 0)
+            nontriv += int(er.get("distinct_nontrivial") or 0)
+            requests += int(er.get("driver_requests") or 0)
+            esc_info = {"ran": True, **{k: er.get(k) for k in ("evaluations", "driver_requests", "distinct_nontrivial", "distinct_bodies",
+                                                               "concrete_total", "corr_total", "parse_skipped_lone_surrogates", "rule", "samples")}}
+        except Exception as e:  # noqa: BLE001
+            import traceback
 
-        er = eng_escapes.run_escape_part(out)
-        esc_info = {"ran": True, **({k: er[k] for k in er if k in ("evaluations", "requests", "summary", "rule", "distinct_nontrivial", "samples")} if isinstance(er, dict) else {})}
-        if isinstance(er, dict):
-            for x in er.get("corr", []) or []:
-                corr.append({**x, "kind": "escapes"} if isinstance(x, dict) else {"request": str(x), "kind": "escapes"})
-            evals += int(er.get("evaluations", 0) or 0)
-            esc_concrete = int(er.get("concrete", 0) or 0) if not isinstance(er.get("concrete"), list) else len(er["concrete"])
-        else:
-            esc_concrete = 0
-    except ImportError:
-        esc_concrete = 0
-    except Exception as e:  # noqa: BLE001
-        esc_info = {"ran": False, "error": f"{type(e).__name__}: {e}"}
-        esc_concrete = 0
+            esc_info = {"ran": False, "error": f"{type(e).__name__}: {e}", "trace": traceback.format_exc()[-400:]}
+            out.infra_error = f"escape part crashed: {type(e).__name__}: {e}"
 
     # ---- verdict (DESIGN §5)
     if crashes:
@@ -1332,7 +1348,11 @@ def run(out: Outcome) -> None:  # noqa: PLR0912, PLR0915
                        "input_repr": None if x.get("input") is None else repr("".join(map(chr, x["input"]))),
                        "expected": exp2, "observed": obs2, "reference_mode": x.get("reference_mode"), "what": x["what"],
                        "shrunk_from": c["grammar"], "seed": seed(), "command": "./check C12 --replay <this file>"})
-    for x in class_concrete[:2]:
+    seen_cls = set()
+    for x in class_concrete:
+        if (x["class"], x["code_point"]) in seen_cls or len(seen_cls) >= 2:
+            continue
+        seen_cls.add((x["class"], x["code_point"]))
         toks = x["request"].split()[1:]
         ns = int(toks[0])
         singles = [int(t) for t in toks[1 : 1 + ns]]
@@ -1342,7 +1362,9 @@ def run(out: Outcome) -> None:  # noqa: PLR0912, PLR0915
                        "class": x["class"], "code_point": x["code_point"], "expected": x["expected"], "observed": x["observed"],
                        "what": x["what"], "mode": "opt", "seed": seed(), "command": "./check C12 --replay <this file>"})
         n_conc += 1
-    n_conc += esc_concrete
+    for x in esc_concrete:
+        out.violation({"kind_of_case": "escape", **x, "seed": seed(), "command": "./check C12 --replay <this file>"})
+        n_conc += 1
     corr.sort(key=lambda c: len(str(c.get("request", ""))))
     if n_conc == 0 and not out.violations:
         if corr:
